@@ -138,6 +138,18 @@ func genSplitClients() {
 		"statements of convertStringToSafeVariableName")
 	m.strs("groupNameBody", dt.stmts(dt.fn("BackendGroup", "Name").Body), "statements of BackendGroup.Name")
 
+	// dataplane newBackendGroup: the loop over refs (a plain map, nothing skipped) and ServicePortReference
+	cf := src("internal/mode/static/state/dataplane/configuration.go")
+	var loops []string
+	for _, st := range cf.fn("", "newBackendGroup").Body.List {
+		if _, ok := st.(*ast.RangeStmt); ok {
+			loops = append(loops, cf.text(st))
+		}
+	}
+	m.strs("newBackendGroupLoop", loops, "range statements of dataplane newBackendGroup")
+	m.strs("servicePortReferenceBody", br.stmts(br.fn("BackendRef", "ServicePortReference").Body),
+		"statements of graph BackendRef.ServicePortReference")
+
 	m.str("invalidBackendRef", u.strConst("invalidBackendRef"), "name of the upstream answering 500")
 	m.str("nginx500Server", u.strConst("nginx500Server"), "server of the invalid-backend-ref upstream")
 	m.strs("invalidUpstreamBody", u.stmts(u.fn("", "createInvalidBackendRefUpstream").Body),
